@@ -159,9 +159,12 @@ def parse_const(val, ty):
             if it.startswith("const "):
                 it = it[6:]
             m = _INT.match(it)
-            if not m:
+            if m:
+                out.append(int(m.group(1)))
+            elif re.match(r"^[A-Za-z_][\w:]*$", it):
+                out.append({"path": it})      # an enum variant / unit struct written by path
+            else:
                 return v
-            out.append(int(m.group(1)))
         return out
     # newtype / single-field struct around an integer:  `path {{ bits: 1_u8 }}` or `path(5_u8)`
     m = re.match(r"^[\w:<>]+\s*\{\{?\s*\w+:\s*(-?\d+)_[iu]\w+\s*\}?\}$", v)
